@@ -161,6 +161,132 @@ def run(ck, a):
       except validate.ValidationError as e_:
         ck.harness_error('translator validation: %s' % e_)
 
+  # ---------------- dynamics terms vs the first-principles mechanics reference (spec/mech.py, validated against real mujoco each run)
+  from brax import actuator, kinematics
+  from brax.generalized import dynamics, mass
+  from brax.generalized.base import State as GState
+  from checks.c01 import TS, half_point
+  from spec import mech
+  dyn_models = []
+  for words, free in ([(['s'], True), (['hs'], False), (['h', 's'], False), (['sh'], True), ([], True)] if not thorough else
+                      [(['s'], True), (['hs'], False), (['h', 's'], False), (['sh'], True), ([], True), (['hh'], True), (['s', 'h'], True), (['hsh'], False), (['h', 'h', 's'], False)]):
+    if free:
+      spec = models.tree_model(rng, words, free_root=True, ortho=False, limits_p=0.0, actuators=min(1, len(words)), joint_props=True)
+    else:
+      spec = models.tree_model(rng, words[1:], free_root=False, root_word=words[0], ortho=False, limits_p=0.0, actuators=1, joint_props=True)
+    dyn_models.append((spec, words, free))
+  for spec, words, free in dyn_models:
+    spec['custom'] = EXACT_INV
+    xml = models.to_xml(spec)
+    sys_ = mjcf.loads(xml)
+    ck.oracle_validated += mech.validate(spec, xml, rng, n=3)
+    ex = models.exact_params(spec)
+    keys = sorted(ex)
+    ctx = core.Ctx(fold=True)
+    ctx.pair_cos_min = F(27, 50)
+    ctx.lemma_timeout = 300
+    q, qd = [], []
+    for b in spec['bodies']:
+      for j in b['joints']:
+        if j['type'] == 'free':
+          q += [z3.Real('q%d' % (len(q) + i)) for i in range(3)] + [F(repr(float(x))) for x in rng.choice(models.QUATS)]
+          qd += [z3.Real('v%d' % (len(qd) + i)) for i in range(6)]
+        else:
+          v = z3.Real('q%d' % len(q))
+          if j['type'] == 'hinge':
+            ctx.angle_points[v.decl().name()] = half_point(rng.choice(TS))
+          else:
+            ctx.assume += [v >= -2, v <= 2]
+          q.append(v)
+          qd.append(z3.Real('v%d' % len(qd)))
+    ctrl = core.reals('u', (sys_.act_size(),))
+    pars = [core.consts(ex[kx]) for kx in keys]
+    def fd(q, qd, ctrl, *ps):
+      s_ = sys_.tree_replace({kx: p for kx, p in zip(keys, ps)})
+      x, xd = kinematics.forward(s_, q, qd)
+      st = GState.init(q, qd, x, xd)
+      st = dynamics.transform_com(s_, st)
+      M = mass.matrix(s_, st)
+      st = st.replace(mass_mx=M)
+      bias = dynamics.inverse(s_, st)
+      passive = dynamics._passive(s_, st)
+      tau = actuator.to_tau(s_, ctrl, q, qd)
+      qfs = dynamics.forward(s_, st, tau)
+      return M, bias, passive, qfs, tau
+    tag = 'dyn/%s%s' % ('free+' if free else 'world-', '.'.join(words) or 'single')
+    try:
+      (Mb, bb, pb, qfs, tau), cj = core.run(ctx, fd, core.obj_array(q), core.obj_array(qd), ctrl, *pars)
+    except (core.SXUnsupported, ZeroDivisionError, ValueError, AssertionError) as e_:
+      ck.harness_error('%s: %r' % (tag, e_))
+      continue
+    ck.traced('generalized dynamics.transform_com + mass.matrix + dynamics.inverse/_passive/forward', cj)
+    replay[tag] = xml
+    Mr, cr, pr = mech.dynamics(spec, q, qd, lambda c_: ctx.sincos(core.s_div(c_, 2)), np.asarray(sys_.gravity))
+    fr = Fr.for_ctx(ctx)
+    side = [fr.formula(s_, _top=False) for s_ in ctx.side] + list(ctx.assume)
+    nv = len(qd)
+    def eq_all(pairs):
+      es = [core.s_eq(x, y) for x, y in pairs]
+      es = [e for e in es if not (isinstance(e, bool) and e)]
+      if any(isinstance(e, bool) for e in es):
+        return z3.BoolVal(False)
+      return z3.And([fr.formula(e) for e in es]) if es else True
+    meta = {'tag': tag}
+    ck.add(Ob('mass-matrix == reference/%s' % tag, side, eq_all([(Mb[i, j], Mr[i][j]) for i in range(nv) for j in range(nv)]), timeout=120, meta=meta))
+    ck.add(Ob('mass-matrix symmetric/%s' % tag, side, eq_all([(Mb[i, j], Mb[j, i]) for i in range(nv) for j in range(i)]), timeout=60, meta=meta))
+    ck.add(Ob('bias-force == reference/%s' % tag, side, eq_all([(bb[i], cr[i]) for i in range(nv)]), timeout=120, meta=meta))
+    ck.add(Ob('passive-force == reference/%s' % tag, side, eq_all([(pb[i], pr[i]) for i in range(nv)]), timeout=60, meta=meta))
+    ck.add(Ob('smooth-force == tau + passive - bias/%s' % tag, side, eq_all([(qfs[i], core.s_sub(core.s_add(tau[i], pr[i]), cr[i])) for i in range(nv)]), timeout=120, meta=meta))
+    # positive definite: qd^T M qd > 0 for qd != 0 (M is concrete-coefficient in Tier B up to the symbolic slide / root coordinates)
+    quad = 0
+    for i in range(nv):
+      for j in range(nv):
+        quad = core.s_add(quad, core.s_mul(qd[i], core.s_mul(Mb[i, j], qd[j])))
+    nz = z3.Or([v != 0 for v in qd])
+    ck.add(Ob('mass-matrix positive definite/%s' % tag, side + [nz], fr.formula(lift(quad) > 0), timeout=120, core=(nv <= 3), meta=meta))
+    if words == ['s']:
+      ck.add(Ob('twin/reach/' + tag, side, None, expect='sat', timeout=60))
+      ck.add(Ob('twin/bias-without-gravity/' + tag, side + [z3.Not(eq_all([(bb[i], core.s_sub(cr[i], 1)) for i in range(nv)]))], None, expect='sat', timeout=60))
+
+  def rep_dyn(ob):
+    import mujoco
+    tag = ob.meta['tag']
+    xml = replay[tag]
+    s_ = mjcf.loads(xml)
+    mj = mujoco.MjModel.from_xml_string(xml)
+    d = mujoco.MjData(mj)
+    r = np.random.RandomState(2)
+    for _ in range(4):
+      qn = np.array(s_.init_q)
+      off = 0
+      for t_ in s_.link_types:
+        if t_ == 'f':
+          qn[off:off + 3] = r.uniform(-0.5, 0.5, 3)
+          v = r.randn(4)
+          qn[off + 3:off + 7] = v / np.linalg.norm(v)
+          off += 7
+        else:
+          qn[off:off + int(t_)] = r.uniform(-1, 1, int(t_))
+          off += int(t_)
+      vn = r.uniform(-1, 1, s_.qd_size())
+      d.qpos[:], d.qvel[:] = qn, vn
+      mujoco.mj_forward(mj, d)
+      x, xd = kinematics.forward(s_, jp.array(qn), jp.array(vn))
+      st = dynamics.transform_com(s_, GState.init(jp.array(qn), jp.array(vn), x, xd))
+      M = np.asarray(mass.matrix(s_, st))
+      bias = np.asarray(dynamics.inverse(s_, st.replace(mass_mx=jp.array(M))))
+      Mf = np.zeros((mj.nv, mj.nv))
+      for k in range(mj.nv):
+        e = np.zeros(mj.nv)
+        e[k] = 1
+        res = np.zeros(mj.nv)
+        mujoco.mj_mulM(mj, d, res, e)
+        Mf[:, k] = res
+      if not np.allclose(M, Mf, atol=1e-7) or not np.allclose(bias, d.qfrc_bias, atol=1e-7):
+        return True, {'xml': xml, 'q': qn.tolist(), 'qd': vn.tolist(), 'brax_mass_matrix': M.tolist(), 'mujoco_mass_matrix': Mf.tolist(), 'brax_bias': bias.tolist(),
+                      'mujoco_qfrc_bias': d.qfrc_bias.tolist()}
+    return False, {'why': 'mass matrix and bias force match mujoco on sampled states'}
+
   def rep(ob):
     tag = ob.meta['tag']
     xml = replay[tag]
@@ -189,6 +315,8 @@ def run(ck, a):
     return False, {'why': 'matches mujoco on sampled states'}
   ck.replayers['velocity-update'] = lambda ob: (True, {'model': ob.model, 'note': 'integrator velocity update violates the implicit Euler equation (solver model)'})
   ck.replayers['position-update'] = rep
+  for p_ in ('mass-matrix', 'bias-force', 'passive-force', 'smooth-force'):
+    ck.replayers[p_] = rep_dyn
   ck.discharge()
   ck.cross_check(n=1, timeout=10)
 
